@@ -60,6 +60,8 @@ pub struct Th {
     pub catches_panics: bool,
     pub holding: Option<QMsg>,
     pub is_worker: bool,
+    /// kernel thread id (for /proc/self/task/<tid>/stat)
+    pub ktid: i32,
 }
 
 #[derive(Default)]
@@ -199,7 +201,7 @@ impl Sched {
         let slot = {
             let mut st = self.lock();
             st.expected += 1;
-            st.threads.push(Th { name: name.to_string(), os: None, pending: None, exited: false, catches_panics, holding: None, is_worker: false });
+            st.threads.push(Th { name: name.to_string(), os: None, pending: None, exited: false, catches_panics, holding: None, is_worker: false, ktid: 0 });
             st.threads.len() - 1
         };
         let s = self.clone();
@@ -254,11 +256,14 @@ impl Sched {
                 // a thread created by the code under test (pool worker) reports for the first time
                 let i = st.threads.len();
                 let name = format!("w{}", i);
-                st.threads.push(Th { name, os: None, pending: None, exited: false, catches_panics: false, holding: None, is_worker: true });
+                st.threads.push(Th { name, os: None, pending: None, exited: false, catches_panics: false, holding: None, is_worker: true, ktid: 0 });
                 st.by_os.insert(key, i);
                 i
             }
         };
+        if st.threads[me].ktid == 0 {
+            st.threads[me].ktid = unsafe { libc::syscall(libc::SYS_gettid) as i32 };
+        }
         if st.threads[me].os.is_none() && op != Op::Born {
             // std's thread handle exists from the thread's own start routine on (not yet at birth)
             st.threads[me].os = Some(thread::current().id());
@@ -292,7 +297,8 @@ impl Sched {
 
     /// Controller: wait until every live thread is parked (or a panic was recorded).
     pub fn wait_quiet(&self) -> Result<MutexGuard<'_, St>, Fail> {
-        let deadline = Instant::now() + Duration::from_secs(6);
+        let mut deadline = Instant::now() + Duration::from_secs(6);
+        let hard_deadline = Instant::now() + Duration::from_secs(90);
         let mut st = self.lock();
         loop {
             let all_parked = st.running.is_none() && st.granted.is_none() && st.threads.len() == st.expected && st.threads.iter().all(|t| t.exited || t.pending.is_some());
@@ -300,6 +306,16 @@ impl Sched {
                 return Ok(st);
             }
             let now = Instant::now();
+            if now >= deadline && now < hard_deadline {
+                // a thread that has not parked: is it blocked (sleeping in the kernel) or just not getting CPU time?
+                let busy = st.threads.iter().any(|t| {
+                    !t.exited && t.pending.is_none() && t.ktid != 0 && std::fs::read_to_string(format!("/proc/self/task/{}/stat", t.ktid)).ok().and_then(|s| s.rsplit(") ").next().and_then(|r| r.chars().next())).map(|c| c == 'R').unwrap_or(false)
+                });
+                if busy {
+                    deadline = now + Duration::from_secs(2);
+                    continue;
+                }
+            }
             if now >= deadline {
                 let desc: Vec<String> = st.threads.iter().map(|t| format!("{}:{:?}{}", t.name, t.pending.as_ref().map(|o| o.label()), if t.exited { "(exited)" } else { "" })).collect();
                 return Err(Fail::Watchdog(format!("threads did not park within 6s: running={:?} expected={} threads={:?}", st.running, st.expected, desc)));
@@ -398,7 +414,7 @@ pub unsafe extern "C" fn pthread_create(t: *mut libc::pthread_t, attr: *const li
                     } else {
                         st.expected += 1;
                         let i = st.threads.len();
-                        st.threads.push(Th { name: format!("w{}", i), os: None, pending: None, exited: false, catches_panics: false, holding: None, is_worker: true });
+                        st.threads.push(Th { name: format!("w{}", i), os: None, pending: None, exited: false, catches_panics: false, holding: None, is_worker: true, ktid: 0 });
                         i
                     }
                 };
